@@ -254,7 +254,7 @@ def C08_4(ctx, facts):
 
 
 def C08_5(ctx, facts):
-    f = facts.unit(facts.method("rewind::Rewind", "Read", "poll_read"))
+    f = facts.unit(facts.method("rewind::Rewind", "Read", "poll_read"), expand=True)
     ctx.touched(f)
     mins = f.calls("std::cmp::min", "core::cmp::min")
     # the two private cursor helpers (today `remaining` and `put_slice`) are spliced into the unit: the copy is the raw
